@@ -562,6 +562,22 @@ fn run(plan: &Plan, ctx: &mut Ctx) -> R {
                         ctx.check("C18", "ffi-scratch", before == 7777 && during == val && during == nd && after == 7777, || {
                             format!("bdd_scratch(h{x}) before/after set/after clear = {before}/{during}/{after}, native during = {nd}")
                         })?;
+                        // a value parked on a strict descendant while the enclosing diagram is counted (the root's own
+                        // slot stays clear, as count_nodes requires): the C sequence and the native one must agree
+                        if op.a[2] & 1 == 1 {
+                            let hi = op.a[2] & 2 == 2;
+                            let (cc, nc) = if hi { (bdd_high(cp[x]), np[x].high()) } else { (bdd_low(cp[x]), np[x].low()) };
+                            if !nc.is_const() {
+                                bdd_set_scratch(cc, val);
+                                nc.set_scratch::<usize>(val);
+                                let (c, nn) = (bdd_count_nodes(cp[x]), np[x].count_nodes());
+                                bdd_clear_scratch(cc);
+                                nc.clear_scratch();
+                                bdd_clear_scratch(cp[x]);
+                                np[x].clear_scratch();
+                                ctx.check("C18", "ffi-count-nodes", c == nn, || format!("with a scratch value parked on its {} child, bdd_count_nodes(h{x}) = {c}, the native sequence gives {nn}", if hi { "high" } else { "low" }))?;
+                            }
+                        }
                     }
                 }
                 _ => {}
